@@ -215,11 +215,14 @@ func (m *MaskRec) Read(p []byte) (int, error) {
 	return len(p), nil
 }
 
-// FindWindow returns an offset o handed out in the given epoch with stream[o:o+4]==key, or -1.
+// FindWindow returns an offset o handed out no later than the given epoch (API call index) with
+// stream[o:o+4]==key and none of whose bytes were used for an earlier frame, or -1.  (Randomness may be
+// drawn ahead of its use, e.g. for several frames at once; what matters is that every frame gets its
+// own fresh window.)
 func (m *MaskRec) FindWindow(key [4]byte, epoch int, used map[int]bool) int {
 	for _, r := range m.Reads {
-		if r[2] != epoch {
-			continue
+		if r[2] > epoch {
+			continue // drawn after the frame was written: cannot be its key
 		}
 		for o := r[0]; o+4 <= r[0]+r[1]; o++ {
 			if maskStreamByte(o) == key[0] && maskStreamByte(o+1) == key[1] && maskStreamByte(o+2) == key[2] && maskStreamByte(o+3) == key[3] {
